@@ -702,6 +702,54 @@ func ruleC07OpsCase(p *Prog, a *Anchors, r *Report, levels map[string]*gramLevel
 				r.Bad(key, p.InstrPos(blk.Instrs[0]), "case %q is not computed with Go's %v on both float and integer operands (float: %v, int: %v; helpers called: %v): an indirect formulation (three-way compare, negated opposite) differs for NaN and mixed kinds", l, ops, hasFloat, hasInt, viaHelpers)
 			}
 		}
+		// "+ concatenating when a string is involved": a numeric addition under the label + is reached only when, for each
+		// operand, either IsString() was false or a number kind was established — testing "a float is involved" first
+		// adds "a" + 1.5 as numbers
+		if blk, has := labels["+"]; has {
+			blocks := ReachableBlocks(blk)
+			for b := range blocks {
+				if ls := labelsOfBlock(b); len(ls) != 1 || ls[0] != "+" {
+					continue
+				}
+				for _, in := range b.Instrs {
+					x, ok := in.(*ssa.BinOp)
+					if !ok || x.Op != token.ADD || !isNumeric(x.X.Type()) {
+						continue
+					}
+					if _, isC := x.Y.(*ssa.Const); isC {
+						continue
+					}
+					okBoth := true
+					for ord := 1; ord <= 2; ord++ {
+						o := ord
+						if !Guarded(in, func(c ssa.Value, pol bool) bool {
+							cc, isCall := c.(*ssa.Call)
+							if !isCall || cc.Common().StaticCallee() == nil || len(cc.Common().Args) == 0 {
+								return false
+							}
+							if operandOrdinal(p, cc.Common().Args[0], en, 0) != o {
+								return false
+							}
+							switch cc.Common().StaticCallee().Name() {
+							case "IsString":
+								return !pol
+							case "IsInteger", "IsFloat", "IsNumber":
+								return pol
+							}
+							return false
+						}) {
+							okBoth = false
+						}
+					}
+					key := fmt.Sprintf("%s:+ %s not-a-string", en.typ, typeName(x.X.Type()))
+					if okBoth {
+						r.OK(key, p.InstrPos(in), "numeric + only when neither operand is a string (or both are numbers)")
+					} else {
+						r.Bad(key, p.InstrPos(in), "the numeric addition under + is reachable with a string operand (the string test does not come first for both operands): \"a\" + 1.5 is added as numbers instead of concatenated")
+					}
+				}
+			}
+		}
 		// == / != / <> / in: EqualValueTo / Contains with the right polarity and operand order
 		for l, blk := range labels {
 			if l != "==" && l != "!=" && l != "<>" && l != "in" {
